@@ -14,7 +14,7 @@ import (
 func init() {
 	register(&Prop{
 		ID:          "C03",
-		Explanation: "Decides the structure that binds a callback to the login that started it: in OAuthCallback every path that saves a session passed decodeState ok, then LoadCSRFCookie under the name derived from that state's nonce, then CheckOAuthState(that nonce)==true on that very cookie object; LoadCSRFCookie yields a CSRF only from a cookie of the requested name that decodeCSRFCookie accepted, which needs encryption.Validate ok and decrypts/unmarshals Validate's value; the hash/check/set methods each read the nonce field they are named after; the start flow sends encodeState(csrf.HashOAuthState()) and HashOIDCNonce() of the same object whose SetCookie succeeded before the redirect, and NewCSRF draws state and nonce from two separate encryption.Nonce calls; both cookie-name derivations cut the hashed state at the same constant and encodeState/decodeState agree on the field order. Added during the build: csrf.ClearCookie deletes exactly its own cookie, so completing one login leaves other outstanding logins intact (R6). The Validate -> checkSignature -> checkHmac -> hmac.Equal chain the CSRF cookie rests on is checked under R2; the session-cookie sweeps that run when a login completes spare other logins' CSRF cookies (R7). Round 4: every Redeem implementation sends the verifier of this login's CSRF cookie (R8, shared with C05.R9); LoginURLParams returns a map made for this request, never the provider's shared default map (R9). Round 6: ExtractStateSubstring returns its cut whenever the state is long enough to cut (under R5). Round 7: request handling keeps no state of its own between requests — no store, map update, in-place builtin, atomic/sync.Map write or pointer-receiver library call (singleflight, caches) reached from ServeHTTP targets a package-level variable, an object built at start-up, or a constructor variable captured by the handler it returned, declared in the packages implementing this property (RS; a class-wide who-may-write rule with zero instances today: a correct memoisation would be reported until reviewed). decodeState divides nonce:redirect at the first colon only (R10). Round 8: makeLoginURL sends the state exactly as handed in (R11, shared with C06.R11).",
+		Explanation: "Decides the structure that binds a callback to the login that started it: in OAuthCallback every path that saves a session passed decodeState ok, then LoadCSRFCookie under the name derived from that state's nonce, then CheckOAuthState(that nonce)==true on that very cookie object; LoadCSRFCookie yields a CSRF only from a cookie of the requested name that decodeCSRFCookie accepted, which needs encryption.Validate ok and decrypts/unmarshals Validate's value; the hash/check/set methods each read the nonce field they are named after; the start flow sends encodeState(csrf.HashOAuthState()) and HashOIDCNonce() of the same object whose SetCookie succeeded before the redirect, and NewCSRF draws state and nonce from two separate encryption.Nonce calls; both cookie-name derivations cut the hashed state at the same constant and encodeState/decodeState agree on the field order. Added during the build: csrf.ClearCookie deletes exactly its own cookie, so completing one login leaves other outstanding logins intact (R6). The Validate -> checkSignature -> checkHmac -> hmac.Equal chain the CSRF cookie rests on is checked under R2; the session-cookie sweeps that run when a login completes spare other logins' CSRF cookies (R7). Round 4: every Redeem implementation sends the verifier of this login's CSRF cookie (R8, shared with C05.R9); LoginURLParams returns a map made for this request, never the provider's shared default map (R9). Round 6: ExtractStateSubstring returns its cut whenever the state is long enough to cut (under R5). Round 7: request handling keeps no state of its own between requests — no store, map update, in-place builtin, atomic/sync.Map write or pointer-receiver library call (singleflight, caches) reached from ServeHTTP targets a package-level variable, an object built at start-up, or a constructor variable captured by the handler it returned, declared in the packages implementing this property (RS; a class-wide who-may-write rule with zero instances today: a correct memoisation would be reported until reviewed). decodeState divides nonce:redirect at the first colon only (R10). Round 8: makeLoginURL sends the state exactly as handed in (R11, shared with C06.R11). Round 8 (class-wide, P12): in the packages implementing this property every named error result that is used at all is examined — compared with nil, returned, stored or handed to a non-formatting function — unless the code validates the value result instead (RE; zero instances today).",
 		NotDecided:  "the 'succeeds' direction of the biconditional and the ordering of concurrent logins (behaviour over histories); entropy of crypto/rand (trusted).",
 		Run:         runC03,
 	})
@@ -57,6 +57,8 @@ func fieldsRead(fn *ssa.Function, fields ...*types.Var) map[*types.Var]bool {
 }
 
 func runC03(c *Ctx) {
+	c.R.Rule("RE-errors-examined", "in the packages implementing this property every named error result that is used at all is examined, or the value is validated instead (P12, class-wide, round 8)", 1)
+	runErrorsExamined(c, "RE-errors-examined", "main", "pkg/cookies")
 	c.R.Rule("RS-no-request-time-state", "request handling writes no state that outlives the request (package-level variables, objects built at start-up, constructor variables captured by handlers) declared in the packages implementing this property", 1)
 	runStateless(c, "RS-no-request-time-state", "main.OAuthProxy", "pkg/cookies")
 	r := c.R
@@ -380,7 +382,46 @@ func runC03(c *Ctx) {
 				}
 			}
 		}
+		// ... or the same two operands joined by concatenation: nonce + ":" + redirect (neutral batch 9)
+		for _, b := range encodeState.Blocks {
+			for _, in := range b.Instrs {
+				bo, ok := in.(*ssa.BinOp)
+				if !ok || bo.Op != token.ADD {
+					continue
+				}
+				var flat []ssa.Value
+				var rec func(v ssa.Value)
+				rec = func(v ssa.Value) {
+					if x, ok := v.(*ssa.BinOp); ok && x.Op == token.ADD {
+						rec(x.X)
+						rec(x.Y)
+						return
+					}
+					flat = append(flat, unwrap(v))
+				}
+				rec(bo)
+				if len(flat) == 3 && flat[0] == encodeState.Params[0] && flat[2] == encodeState.Params[1] {
+					if s, ok := ConstString(flat[1]); ok && s == ":" {
+						okEnc = true
+					}
+				}
+			}
+		}
 		key = "state-order|" + fnKey(encodeState) + "~" + fnKey(decodeState)
+		// part k of the state: an element of strings.Split/SplitN(·, ":"…) or a result of strings.Cut(·, ":")
+		statePart := func(v ssa.Value) (int64, bool) {
+			if n, ok := indexLoad(v); ok {
+				return n, true
+			}
+			if ex, ok := v.(*ssa.Extract); ok && ex.Index <= 1 {
+				if call, ok := ex.Tuple.(*ssa.Call); ok && isStd(&call.Call, "strings", "Cut") {
+					if s, _ := ConstString(call.Call.Args[1]); s == ":" {
+						return int64(ex.Index), true
+					}
+				}
+			}
+			return -1, false
+		}
 		okDec := false
 		c.Walk(rule, decodeState, func(p *walk.Path) {
 			e, _ := p.ReturnDV(2)
@@ -389,8 +430,8 @@ func runC03(c *Ctx) {
 			}
 			r0, _ := p.ReturnDV(0)
 			r1, _ := p.ReturnDV(1)
-			i0, ok0 := indexLoad(p.Resolve(r0).V)
-			i1, ok1 := indexLoad(p.Resolve(r1).V)
+			i0, ok0 := statePart(p.Resolve(r0).V)
+			i1, ok1 := statePart(p.Resolve(r1).V)
 			if ok0 && ok1 && i0 == 0 && i1 == 1 {
 				okDec = true
 			} else {
